@@ -46,6 +46,7 @@ type Engine struct {
 	modulePath       string
 	loadSeconds      float64
 	buildSeconds     float64
+	srcLines         map[string][]string
 }
 
 type Decision struct {
@@ -610,6 +611,9 @@ func (r *Run) recordPanic(g *G) {
 	msg := g.panicMsg
 	id := r.hname + "/panic"
 	site := r.panicSite
+	if g.panicOrigin != "" {
+		site = g.panicOrigin
+	}
 	if site != "" {
 		id = id + "@" + site
 	}
